@@ -4,7 +4,7 @@
 # VERIF_REPO, with its own scratch directory (VERIF_WORK), so /repo itself is never touched and other work can go on meanwhile.
 # (tools/mutant.sh does the same thing directly on /repo, the way the brief describes: apply, run, undo.)
 cd /verif
-OUT=seeded/RESULTS.md
+OUT=${OUT:-seeded/RESULTS.md}
 WT=/tmp/seeded_sweep_wt
 export VERIF_WORK=/verif/work/sweep VERIF_EVIDENCE_DIR=/verif/work/sweep/evidence
 mkdir -p $VERIF_WORK
@@ -12,6 +12,7 @@ echo "| seeded change | property | check exit | verdict | first reported failing
 for d in seeded/*/; do
   id=$(basename $d); [ -f $d/patch.diff ] || continue
   [ -n "$ONLY" ] && ! echo "$id" | grep -qE "$ONLY" && continue
+  case $id in benign-*) continue;; esac
   prop=$(python3 -c "import json;print(json.load(open('$d/meta.json'))['property'])")
   git -C /repo worktree remove --force $WT 2>/dev/null; rm -rf $WT
   git -C /repo worktree add --detach $WT HEAD >/dev/null 2>&1
